@@ -21,7 +21,7 @@ func init() {
 func (c07) ID() string    { return "C07" }
 func (c07) Level() string { return "exploration" }
 func (c07) Rule() string {
-	return "A case is a log over one or two protected references in which every entry is independently valid (pushed by the authorised developer) or violating (pushed by an unauthorised key), revoked or not (skip annotations placed right after, anywhere later, or one annotation covering several entries, by any actor), and carries one of three trees (so tree-sameness to the last good state arises in every combination), interleaved with unprotected-ref pushes, policy changes that switch who is authorised, and attestation entries. Thorough tier: all patterns (valid/violating x skipped/not x 3 trees) up to length 4 are swept by index, length 5-12 sampled; quick samples. Oracle: the recovery rule as worded, evaluated over ground truth. Distinct = distinct (flag pattern, annotation placement class, interleaving); non-trivial = at least one violating entry and at least one skip annotation."
+	return "A case is a log over one or two protected references in which every entry is independently valid (pushed by the authorised developer) or violating (pushed by an unauthorised key), revoked or not (skip annotations placed right after, anywhere later, or one annotation covering several entries, by any actor; message-only annotations that revoke nothing may name any entry), and carries one of three trees (so tree-sameness to the last good state arises in every combination), interleaved with unprotected-ref pushes, policy changes that switch who is authorised, and attestation entries. Thorough tier: all patterns (valid/violating x skipped/not x 3 trees) up to length 4 are swept by index, length 5-12 sampled; quick samples. Oracle: the recovery rule as worded, evaluated over ground truth. Distinct = distinct (flag pattern, annotation placement class, interleaving); non-trivial = at least one violating entry and at least one skip annotation."
 }
 func (c07) Components() map[string]string {
 	return map[string]string{"internal/policy verifier (recovery loop)": "real", "pkg/rsl readers": "real", "gitstore.Storer": "stub (SimStore)"}
@@ -147,6 +147,11 @@ func (c07) Generate(r *core.Rand, tier string, idx uint64) *core.Case {
 			}
 		}
 		emitDue(false)
+		if !sweep && r.Chance(0.15) {
+			// a message-only annotation (skip=false) naming this entry: it revokes nothing,
+			// whether the entry is also named by a revocation or not
+			b.add(world.Op{Kind: "annotate", Actor: r.Range(0, 3), Targets: []int{id}, Skip: false, Msg: "note", EntryKey: -2})
+		}
 		if !sweep {
 			switch r.Intn(8) {
 			case 0:
